@@ -1,5 +1,6 @@
 import NautilusVerif.Model.CoreInv
 import NautilusVerif.Model.NodupFast
+import NautilusVerif.Model.Run
 open NautilusVerif Core
 namespace CoreDriver
 
@@ -49,6 +50,15 @@ def parseOp (ws : List String) : Option Op :=
   | ["D", d] => some (.setDiscard (d == "1"))
   | _ => none
 
+/-- events of `run()`: `RUN n_shell discard n_live n_like_max|-`, `END ret neffOK`, or an operation -/
+def parseEv (ws : List String) : Option Run.Ev :=
+  match ws with
+  | ["RUN", ns, d, nl, mx] => do
+      let m ← if mx == "-" then some none else mx.toNat?.map some
+      some (.runStart { nShell := ← ns.toNat?, discard := d == "1", nLive := ← nl.toNat?, nLikeMax := m })
+  | ["END", r, k] => some (.runEnd (r == "1") (k == "1"))
+  | _ => (parseOp ws).map .op
+
 def lstr (l : List Nat) : String := "[" ++ ",".intercalate (l.map toString) ++ "]"
 def istr (l : List Int) : String := "[" ++ ",".intercalate (l.map toString) ++ "]"
 
@@ -92,10 +102,15 @@ def handle (ws : List String) : Option String :=
           let tbl := infos.foldl (fun (t : Array (Option PtInfo)) ip => t.set! ip.1 (some ip.2))
             (Array.replicate size none)
           let env := mkEnv tbl
-          let ops ← (opsW.filter (· ≠ [])).mapM parseOp
-          let (_, outs) := ops.foldl (fun (acc : St × List String) op =>
-            let r := step env acc.1 op
-            (r.1, acc.2 ++ [outStr r.2 ++ " # " ++ stStr full r.1 ++ " # " ++ invStr env r.1])) (init nBatch, [])
+          let evs ← (opsW.filter (· ≠ [])).mapM parseEv
+          -- `run=`: the event sequence so far is one `run()` can issue (`Run.accept`, evaluated on the state before the event)
+          let (_, _, outs) := evs.foldl (fun (acc : St × Option Run.Pos × List String) ev =>
+            let pos' := acc.2.1.bind (fun pos => Run.accept pos acc.1 ev)
+            let (s', out) := match ev with
+              | .op o => let r := step env acc.1 o; (r.1, outStr r.2)
+              | _ => (acc.1, "ok")
+            (s', pos', acc.2.2 ++ [out ++ " # " ++ stStr full s' ++ " # " ++ invStr env s' ++ s!" run={pos'.isSome}"]))
+            (init nBatch, some Run.Pos.idle, [])
           some (" ;; ".intercalate outs)
       | _ => none
   | _ => none
